@@ -506,3 +506,51 @@ Proof.
   exists (mkNet [] [] [] [mkGen 1 1 (-3#10) 0 0 0 true false] false 1 []), [], [1;1], [C0;C0], [(1%nat, 3#10)], 1%nat.
   vm_compute. intros E. discriminate E.
 Qed.
+
+(* ------------------------------------------------------------------ limited gens folded into a ZIP bus demand *)
+Lemma Sload_fold_re n k v pl ql :
+  re (Sload_fold n k v pl ql) == re (Sload n k v) - pl - (if vdl n then pl * (z_cip (zip_row n k) * (v - 1) + z_czp (zip_row n k) * (v * v - 1)) else 0).
+Proof. unfold Sload_fold, Sload, vdep. destruct (vdl n); cbn [re]; qnorm; ring. Qed.
+Lemma Sload_fold_im n k v pl ql :
+  im (Sload_fold n k v pl ql) == im (Sload n k v) - ql - (if vdl n then ql * (z_ciq (zip_row n k) * (v - 1) + z_czq (zip_row n k) * (v * v - 1)) else 0).
+Proof. unfold Sload_fold, Sload, vdep. destruct (vdl n); cbn [im]; qnorm; ring. Qed.
+Lemma qlimdef_p_eq n k v pl :
+  qlimdef_p n k v pl == if vdl n then pl * (z_cip (zip_row n k) * (v - 1) + z_czp (zip_row n k) * (v * v - 1)) else 0.
+Proof. unfold qlimdef_p. destruct (vdl n); cbn [negb]; [|reflexivity]. qnorm. reflexivity. Qed.
+Lemma qlimdef_q_eq n k v ql :
+  qlimdef_q n k v ql == if vdl n then ql * (z_ciq (zip_row n k) * (v - 1) + z_czq (zip_row n k) * (v * v - 1)) else 0.
+Proof. unfold qlimdef_q. destruct (vdl n); cbn [negb]; [|reflexivity]. qnorm. reflexivity. Qed.
+Lemma imbalance_fold_p n ref k v sinj pl ql : (memn k ref && has_gen n k) = false ->
+  resid_fold_p n ref k v sinj pl == mism_fold_p n k v sinj pl ql - zipdef_p n k v + qlimdef_p n k v pl.
+Proof.
+  intros H. unfold resid_fold_p, mism_fold_p. rewrite !qsub_correct, qmul_correct, (imbalance_p _ _ _ _ _ H), mism_p_eq,
+    Sload_fold_re, qlimdef_p_eq. destruct (vdl n); ring.
+Qed.
+Lemma imbalance_fold_q n k v sinj pl ql : has_gen n k = false ->
+  resid_fold_q n k v sinj ql == mism_fold_q n k v sinj pl ql - zipdef_q n k v + qlimdef_q n k v ql.
+Proof.
+  intros H. unfold resid_fold_q, mism_fold_q. rewrite qsub_correct, qadd_correct, qmul_correct, (imbalance_q _ _ _ _ H), mism_q_eq,
+    Sload_fold_im, qlimdef_q_eq. destruct (vdl n); ring.
+Qed.
+Lemma G01ql_def n k v pl ql : G01ql n k pl ql = true -> qlimdef_p n k v pl == 0 /\ qlimdef_q n k v ql == 0.
+Proof.
+  unfold G01ql. rewrite qlimdef_p_eq, qlimdef_q_eq. destruct (vdl n); cbn [negb orb]; [|split; reflexivity].
+  intros H. apply andb_true_iff in H. destruct H as [H H4]. apply andb_true_iff in H. destruct H as [H H3].
+  apply andb_true_iff in H. destruct H as [H1 H2]. apply qeqb_eq in H1, H2, H3, H4.
+  rewrite qmul_correct in H1, H2, H3, H4. set (z := zip_row n k) in *. split.
+  - setoid_replace (pl * (z_cip z * (v - 1) + z_czp z * (v * v - 1))) with ((pl * z_cip z) * (v - 1) + (pl * z_czp z) * (v * v - 1)) by ring.
+    rewrite H1, H2. ring.
+  - setoid_replace (ql * (z_ciq z * (v - 1) + z_czq z * (v * v - 1))) with ((ql * z_ciq z) * (v - 1) + (ql * z_czq z) * (v * v - 1)) by ring.
+    rewrite H3, H4. ring.
+Qed.
+(* witness: a gen with PG = 20 at its limit on a bus with one constant-impedance load, |V| = 99/100, zero folded mismatch *)
+Definition witq_net : net :=
+  mkNet [mkLoad 1 1 10 4 1 true 100 0 100 0] [] [] [mkGen 1 1 20 (-5) 5 0 false false] true 1 [(1%nat, 1%nat)].
+Lemma qlim_fold_refuted :
+  G01p witq_net 1 = true /\ G01ql witq_net 1 20 5 = false /\
+  exists sinj, mism_fold_p witq_net 1 (99#100) sinj 20 5 == 0 /\ ~ resid_fold_p witq_net [] 1 (99#100) sinj 20 == 0.
+Proof.
+  split; [reflexivity|]. split; [reflexivity|].
+  exists (mkC (- re (Sload_fold witq_net 1 (99#100) 20 5)) 0). split; [vm_compute; reflexivity|].
+  vm_compute. intros E. discriminate E.
+Qed.
